@@ -19,7 +19,7 @@ def section(readme, *names):
     out, on = [], False
     for ln in lines:
         if ln.startswith('#'):
-            h = ln.lstrip('# ').lower()
+            h = re.sub(r'^\([a-d]\)\s*', '', ln.lstrip('# ').lower())
             if on:
                 break
             on = any(h.startswith(n) for n in names)
@@ -34,7 +34,7 @@ for d in sorted(glob.glob(V + '/seeded/C*-m*')):
     readme = open(d + '/README.md').read()
     patch = open(d + '/patch.diff').read()
     title = readme.split('\n', 1)[0].lstrip('# ').strip()
-    title = re.sub(r'^C\d+\s*(/|mutant)?\s*m?\d*\s*[-—:]*\s*', '', title).strip() or title
+    title = re.sub(r'^C\d+\s*(/|mutant)?\s*(m?\d+|[ab])?\s*[-—:]*\s*', '', title).strip() or title
     files = sorted(set(re.findall(r'^\+\+\+ b/(\S+)', patch, re.M)))
     demos = sorted(os.path.basename(f) for f in glob.glob(d + '/*_test.go'))
     tests, pkgname = [], None
@@ -53,13 +53,13 @@ for d in sorted(glob.glob(V + '/seeded/C*-m*')):
             break
     if pkgdir is None and files:
         pkgdir = os.path.dirname(files[0])
-    needs = section(readme, 'what it needs')
-    why = section(readme, 'why it breaks')
+    needs = section(readme, 'what it needs', 'what is needed')
+    why = section(readme, 'why it breaks', 'what the change breaks', 'what it breaks')
     runs = results.get(mid, [])
     caught = [r for r in runs if r['exit_code'] == 1 and r['signatures']]
     h = hist.get(mid, {"initially_missed": False, "strengthening": ""})
     confirm = open(d + '/confirm.txt').read().strip().split('\n') if os.path.exists(d + '/confirm.txt') else None
-    rnd = {'1': 1, '2': 1, '3': 2, '4': 2, '5': 3, '6': 3}.get(mid[-1], 0)
+    rnd = {'1': 1, '2': 1, '3': 2, '4': 2, '5': 3, '6': 3, '7': 4, '8': 4}.get(mid[-1], 0)
     meta = {
         "id": mid,
         "property": pid,
